@@ -36,23 +36,30 @@ LEVEL_TEXT = (
     "(preconditioned) residual of the returned x, no division by zero for HPD A and M; normal equations <=> least squares; "
     "both MatrixATADSolver paths and the per-frequency Sherman-Morrison path solve (A^H W A + D) x = b for vector and matrix "
     "right-hand sides; accuracy = rel_res of that system; bisection and golden-section bracket invariants, contraction and "
-    "returned-point guarantees for all iteration counts.  The model is tied to the code by differential testing."
+    "returned-point guarantees for all iteration counts.  Round 2: classical CG theory by induction over the iteration count "
+    "(residuals orthogonal to earlier directions and M-orthogonal to each other, directions A-conjugate, every body decreases the "
+    "A-norm error by num^2/<p,Ap>, num_iter <= dim V, maxiter >= dim V => the stopping rule holds at exit; cg_solver exact after dim V "
+    "steps); contract model of jax.scipy.sparse.linalg.cg (exit rule on the true residual, same iterates as scico's cg for Hermitian "
+    "A, M); lane independence of vectorised bisect/golden; golden with a supplied c: proved for a<c<d, machine-checked counterexample "
+    "for c>=d (finding golden-c-beyond-d), full theorem for the patched code.  The model is tied to the code by differential testing."
 )
 LEVEL_NOTE = (
     "Trusted: Lean kernel + Mathlib (propext, Classical.choice, Quot.sound); real-number idealisation (rounding, loss of CG "
     "orthogonality not modelled); contracts of lu/cho_solve (returns G^-1 c), fftn/ifftn (diagonalise circular convolution), "
-    "jax linear_transpose (lstsq on a bare callable), jax.scipy.sparse.linalg.cg (tied through the residual oracle only). "
-    "CG convergence rates are outside; the correspondence samples systems up to 8x8 / 60 iterations."
+    "jax linear_transpose (lstsq on a bare callable); jax.scipy.sparse.linalg.cg is third-party code modelled as a contract (jaxCg) "
+    "and tied iterate by iterate. CG convergence *rates* (condition-number bounds) and floating-point loss of conjugacy are outside; "
+    "the correspondence samples systems up to 8x8 / 60 iterations."
 )
 PROP_MODULES = ["Scico.Props.C14"]
 EXTRA_TARGETS = ["Drv.LinSolve"]
 DRIVER = "LinSolve"
 FILES = ["scico/solver.py", "scico/flax/inverse.py", "scico/metric.py", "scico/optimize/_admmaux.py"]
 RULE = (
-    "cases per stream (cg, cgscan, lstsq, atad, conv, relres, bisect, golden) from random well-conditioned data "
+    "cases per stream (cg, jaxcg, cgscan, lstsq, atad, conv, relres, bisect, golden) from random well-conditioned data "
     "(HPD = B B^H + n I, |B_ij|<=1; dyadic or uniform values; real and complex; sizes 1..6/8), options drawn from grids "
     "(tol, atol, maxiter incl. 0, preconditioner none/diagonal/HPD, x0 none/random, operator vs callable, zero right-hand "
-    "side, tall/wide/square A, 1-D/2-D D, weights none/positive/with zeros, vector/matrix right-hand side, cho/lu); "
+    "side, info True/False, tall/wide/square A, 1-D/2-D D, weights none/positive/with zeros, vector/matrix right-hand side, cho/lu, "
+    "golden with c none / at a quarter / anywhere in (a,b)); "
     "a case is non-trivial when the solver executes >=1 iteration / a non-identity system is solved / the bracket moves; "
     "distinct by the full input (hash of the case). Near-ties of a stopping test (0<margin<1e-6) are discarded, exact ties kept."
 )
@@ -791,6 +798,58 @@ def run_atad(ctx, model, case):
 
 
 # =============================================================================================
+# MatrixATADSolver.__init__ argument checks (malformed stream)
+
+
+def gen_atadargs(rng):
+    return {"kind": "atadargs", "dkind": str(rng.choice(["diagonal", "array"])), "dndim": int(rng.choice([0, 1, 1, 2, 2, 3])),
+            "wkind": str(rng.choice(["none", "diagonal", "array", "other-list", "other-numpy"])), "wndim": int(rng.choice([1, 1, 2])),
+            "cplx": bool(rng.integers(0, 2))}
+
+
+def run_atadargs(ctx, model, case):
+    S = _setup()
+    jnp, solver, linop = S["jnp"], S["solver"], S["linop"]
+    dt = np.complex128 if case["cplx"] else np.float64
+    n = 2
+    dshape = (n,) * case["dndim"]
+    dval = jnp.array(np.full(dshape, 2.0), dtype=dt)
+    if case["dkind"] == "diagonal":
+        if case["dndim"] == 0:
+            case = dict(case, dndim=1)
+            dval = jnp.array(np.full((n,), 2.0), dtype=dt)
+        D = linop.Diagonal(dval)
+    else:
+        D = dval
+    wk = case["wkind"]
+    if wk == "none":
+        W = None
+    elif wk == "diagonal":
+        W = linop.Diagonal(jnp.array(np.ones((n,) * case["wndim"]), dtype=dt))
+    elif wk == "array":
+        W = jnp.array(np.ones(n), dtype=dt)
+    elif wk == "other-list":
+        W = [1.0, 1.0]
+    else:
+        W = np.ones(n)
+    try:
+        solver.MatrixATADSolver(jnp.array(np.eye(n), dtype=dt), D, W)
+        got = "ok"
+    except Exception as e:  # noqa: BLE001
+        got = _err(e)
+    try:
+        model.call("atad_validate", dkind=case["dkind"], dndim=case["dndim"], wkind=wk if wk in ("none", "diagonal", "array") else "other",
+                   wndim=case["wndim"])
+        want = "ok"
+    except ModelErr as e:
+        want = e.kind
+    ctx.count(f"atadargs:{got}")
+    ctx.case({"kind": "atadargs", "d": [case["dkind"], case["dndim"]], "w": [wk, case["wndim"]], "result": got}, None if got == "ok" else _key(case))
+    if got != want:
+        ctx.disagree("linsolve.atadargs", case, got, want, oracle=lambda c: None)
+
+
+# =============================================================================================
 # ConvATADSolver
 
 
@@ -1248,14 +1307,14 @@ def run_golden(ctx, model, case):
 
 # =============================================================================================
 
-RUNNERS = {"cg": run_cg, "jaxcg": run_jaxcg, "cgscan": run_cgscan, "lstsq": run_lstsq, "atad": run_atad, "conv": run_conv, "relres": run_relres,
+RUNNERS = {"cg": run_cg, "jaxcg": run_jaxcg, "cgscan": run_cgscan, "lstsq": run_lstsq, "atad": run_atad, "atadargs": run_atadargs, "conv": run_conv, "relres": run_relres,
            "bisect": run_bisect, "golden": run_golden}
-GENS = {"cg": gen_cg, "jaxcg": gen_jaxcg, "cgscan": gen_cgscan, "lstsq": gen_lstsq, "atad": gen_atad, "conv": gen_conv, "relres": gen_relres,
+GENS = {"cg": gen_cg, "jaxcg": gen_jaxcg, "cgscan": gen_cgscan, "lstsq": gen_lstsq, "atad": gen_atad, "atadargs": gen_atadargs, "conv": gen_conv, "relres": gen_relres,
         "bisect": gen_bisect, "golden": gen_golden}
 ORACLES = {"cg": oracle_cg, "jaxcg": oracle_jaxcg, "cgscan": oracle_cgscan, "lstsq": oracle_lstsq, "atad": oracle_atad, "conv": oracle_conv,
            "bisect": oracle_bisect, "golden": oracle_golden}
 # (quick, thorough) number of generated cases per stream
-BUDGET = {"cg": (120, 1500), "jaxcg": (40, 400), "cgscan": (25, 250), "lstsq": (30, 300), "atad": (90, 1000), "conv": (40, 400), "relres": (30, 200),
+BUDGET = {"cg": (120, 1500), "jaxcg": (40, 400), "cgscan": (25, 250), "lstsq": (30, 300), "atad": (90, 1000), "atadargs": (20, 60), "conv": (40, 400), "relres": (30, 200),
           "bisect": (60, 700), "golden": (50, 600)}
 
 
